@@ -7,6 +7,8 @@ EXTENDS PurlGrammar, Json, TLCExt
 CONSTANTS N, SUITE
 
 S(str) == [i \in 1..Len(str) |-> str[i]]
+Pieces == << <<97,47>>, <<47>>, <<46,47>>, <<46,46,47>>, <<37,50,101,47>>, <<37,50,69,47>>, <<46,37,50,101,47>>, <<37,50,70,47>>,
+            <<37,50,102,47>>, <<37,53,67,47>>, <<46,46,46,47>>, <<37,50,101,37,50,69,47>> >>
 Alphabets ==
   [sep  |-> << <<47>>, <<64>>, <<63>>, <<35>>, <<61>>, <<38>>, <<97>> >>,
    \*        /  @  t  T  .  %2e  %2F  %41  %C3%A9  %80  %  1  +
@@ -17,8 +19,15 @@ Alphabets ==
                <<35>>, <<63>>, <<99,104,101,99,107,115,117,109>>, <<97,58,48,65>>, <<44>> >>,
    \*        "maven" "pypi" "NuGet" / @ "A_" "-." a ?k=v #s
    typed |-> << <<109,97,118,101,110>>, <<112,121,112,105>>, <<78,117,71,101,116>>, <<47>>, <<64>>,
-                <<65,95>>, <<45,46>>, <<97>>, <<63,107,61,118>>, <<35,115>>, <<453>>, <<110,112,109>> >>]
-Prefixes == [sep |-> PKG, path |-> PKG, qual |-> PKG \o <<116, 47, 110, 63>>, typed |-> PKG]
+                <<65,95>>, <<45,46>>, <<97>>, <<63,107,61,118>>, <<35,115>>, <<453>>, <<110,112,109>> >>,
+   \* pieces of a namespace / subpath, each followed by '/':  a  (empty)  .  ..  %2e  %2E  .%2e  %2F  %2f  %5C  ...  %2e%2E
+   nsseg |-> Pieces, subseg |-> Pieces,
+   \* whole qualifiers: ka=1& k_=2& kb=3& K_=4& k1=5& KA=6&
+   quals2 |-> << <<107,97,61,49,38>>, <<107,95,61,50,38>>, <<107,98,61,51,38>>, <<75,95,61,52,38>>, <<107,49,61,53,38>>, <<75,65,61,54,38>> >>]
+Prefixes == [sep |-> PKG, path |-> PKG, qual |-> PKG \o <<116, 47, 110, 63>>, typed |-> PKG,
+             nsseg |-> PKG \o <<116, 47>>, subseg |-> PKG \o <<116, 47, 110, 35>>, quals2 |-> PKG \o <<116, 47, 110, 63>>]
+Suffixes == [sep |-> <<>>, path |-> <<>>, qual |-> <<>>, typed |-> <<>>,
+             nsseg |-> <<110>>, subseg |-> <<>>, quals2 |-> <<122, 61, 57>>]
 Alphabet == Alphabets[SUITE]
 Prefix == Prefixes[SUITE]
 
@@ -28,7 +37,7 @@ Next == /\ Len(w) < N
         /\ \E i \in 1..Len(Alphabet) : w' = Append(w, i)
 RECURSIVE Expand(_)
 Expand(t) == IF t = <<>> THEN <<>> ELSE Alphabet[t[1]] \o Expand(Tail(t))
-Str == Prefix \o Expand(w)
+Str == Prefix \o Expand(w) \o Suffixes[SUITE]
 
 OutG == ParseF(Str, Generic, LowerTab)
 OutT == ParseF(Str, Typed, LowerTab)
